@@ -49,7 +49,7 @@ struct Slot {
     call: Option<Call>,
 }
 
-const N_SLOTS: usize = 34;
+const N_SLOTS: usize = 37;
 /// The slot alphabet. `p` is a TID prefix unique to the block.
 fn slot(i: usize, p: &str) -> Slot {
     let t = |k: usize| format!("instr_{p}_{k}");
@@ -90,12 +90,16 @@ fn slot(i: usize, p: &str) -> Slot {
         30 => d(vec![assign(&t(0), r8("RDI"), bin(BinOpType::IntMult, e8("RDI"), e8("RSI")))]),
         31 => d(vec![assign(&t(0), r8("RSI"), bin(BinOpType::IntRight, e8("RSI"), cst(3, 8)))]),
         32 => d(vec![assign(&t(0), r8("RDX"), un(UnOpType::Int2Comp, e8("RDX")))]),
-        _ => d(vec![assign(&t(0), r8("RDI"), cast(CastOpType::IntZExt, 8, subpiece(0, 1, e8("RDI"))))]),
+        33 => d(vec![assign(&t(0), r8("RDI"), cast(CastOpType::IntZExt, 8, subpiece(0, 1, e8("RDI"))))]),
+        // addresses in which a register only occurs as scaled / shifted / subtracted index
+        34 => d(vec![load(&t(0), r8("RAX"), add(e8("RDI"), bin(BinOpType::IntMult, e8("RSI"), cst(4, 8))))]),
+        35 => d(vec![store(&t(0), add(e8("RDI"), bin(BinOpType::IntLeft, e8("RDX"), cst(3, 8))), cst(0, 8))]),
+        _ => d(vec![load(&t(0), r8("RAX"), sub_(e8("RDI"), e8("RSI")))]),
     }
 }
-const QUICK_SLOTS: [usize; 18] = [0, 1, 2, 5, 7, 8, 10, 11, 12, 13, 16, 20, 22, 23, 24, 30, 32, 33];
+const QUICK_SLOTS: [usize; 21] = [0, 1, 2, 5, 7, 8, 10, 11, 12, 13, 16, 20, 22, 23, 24, 30, 32, 33, 34, 35, 36];
 /// Alphabet of the 4-slot layer of the thorough tier.
-const THOROUGH_4SLOT: [usize; 18] = [0, 1, 2, 3, 5, 7, 8, 9, 10, 11, 13, 16, 19, 20, 22, 24, 26, 29];
+const THOROUGH_4SLOT: [usize; 20] = [0, 1, 2, 3, 5, 7, 8, 9, 10, 11, 13, 16, 19, 20, 22, 24, 26, 29, 30, 34];
 
 fn externs() -> Vec<ExternSymbol> {
     let a = |n: &str| arg_reg(n, 8);
